@@ -64,6 +64,11 @@ def fid(r):
 
 def finish(ctx, explanation, trusted_base, level="other"):
     """print lines, write evidence + replay files, return exit code"""
+    import signal
+    try:
+        signal.signal(signal.SIGPIPE, signal.SIG_DFL)
+    except Exception:
+        pass
     from .model import AnalysisError
     prop = ctx.prop
     for name, measured, floor in ctx.floors:
